@@ -63,5 +63,8 @@ C16_OK(cfg, in, o) ==
       /\ (o.relay_present => o.relay_ok)
       /\ o.script_submits /\ o.skeleton_ok
 
+\* C15 (fragment): what travels is exactly the produced document, so every value in it is recovered by parsing
+C15_OK(cfg, in, o) == o.built => ((in.binding = "redirect" => o.request_ok) /\ (in.binding = "post" => o.field_ok))
+
 Conforms(m, o) == o.built = m.built /\ o.relay_present = m.relay_present /\ o.sig_present = m.sig_present
 =============================================================================
